@@ -16,6 +16,7 @@ import (
 	"os"
 	"os/exec"
 	"path/filepath"
+	"runtime/debug"
 	"sort"
 	"strings"
 	"time"
@@ -236,6 +237,9 @@ func guard(f func() string) (out string) {
 		if r := recover(); r != nil {
 			out = "panic"
 			lastPanic = fmt.Sprint(r)
+			if os.Getenv("VERIF_DEBUG") != "" {
+				fmt.Fprintf(os.Stderr, "panic: %v\n%s\n", r, debug.Stack())
+			}
 		}
 	}()
 	return f()
